@@ -426,6 +426,19 @@ def oracle_c12(run, ops, impl):
                 out.append(V("C12:paid-without-weight", {"line": i + 1, "paid": paid}))
             if d["bal"] >= owed_before and o["bal"] < owed_after:
                 out.append(V("C12:module-balance-below-owed", {"line": i + 1, "balance": o["bal"], "owed": owed_after}))
+        elif op.startswith("oracle gates"):
+            a = op.split()
+            h, vp, sw = int(a[2]), int(a[3]), int(a[4])
+            if ob.startswith("panic"):
+                out.append(V("C12:panic-in-end-blocker", {"line": i + 1, "op": op}))
+                continue
+            o = dict(x.split("=") for x in ob.split())
+            if (o.get("slash") == "1") != ((h + 1) % sw == 0):
+                out.append(V("C12:slash-window-end-not-honoured", {"line": i + 1, "height": h, "votePeriod": vp, "slashWindow": sw,
+                                                                   "reset_ran": o.get("slash") == "1"}))
+            if (o.get("tally") == "1") != ((h + 1) % vp == 0):
+                out.append(V("C12:tally-not-at-vote-period-end", {"line": i + 1, "height": h, "votePeriod": vp, "slashWindow": sw,
+                                                                  "tally_ran": o.get("tally") == "1"}))
         elif op.startswith("oracle allocate"):
             a = op.split()
             total, periods = int(a[3]), int(a[4])
